@@ -1271,7 +1271,13 @@ def run_history_case(ctx, idx, rng):
     set_priors(C, [])
     oc = dict(o, weights='diag', priors='none', expected_chisquare=True)
     for nm, prob in (('A', A2), ('C', C)):
-        res, sol, info = fit_and_judge(ctx, prob, oc, 'history:same-functions-other-abscissae', '%s functions reused (%s)' % (what, nm))
+        sol_c = solve_reference(ctx, prob, oc, None)
+        if oc['method'] != 'Levenberg-Marquardt' and sol_c['cond'] > 1e6:
+            # without its priors the problem can be ill conditioned (cond 1e6 .. 1e8): migrad / simplex / Powell stop on a change of the
+            # function value (EDM 2e-4 = 0.02 sigma for migrad), which no longer bounds the distance along the flat direction
+            ctx.count('history_reuse_not_judged_ill_conditioned_for_this_minimiser')
+            continue
+        res, sol, info = fit_and_judge(ctx, prob, oc, 'history:same-functions-other-abscissae', '%s functions reused (%s)' % (what, nm), sol=sol_c)
         if res is None:
             return
         ctx.count('function_objects_reused_on_other_abscissae')
